@@ -52,6 +52,8 @@ pub fn configs(thorough: bool) -> Vec<EpCfg> {
             c.alph = session_alph(ver == Ver::V5, 3);
             c.alph.pub_q = vec![1, 2];
             c.alph.peer_ack_err = false;
+            // (erase_stored_publish() of the first of three entries as well)
+            c.alph.erase = true;
             c.connects = vec![ConnProf::basic(false)];
             c.connacks = vec![AckProf::basic(true)];
             c.groups = vec!["c06"];
@@ -96,6 +98,26 @@ pub fn configs(thorough: bool) -> Vec<EpCfg> {
             AckProf { tam: Some(2), ..AckProf::basic(true) },
             AckProf { tam: Some(2), mps: Some(12), ..AckProf::basic(true) },
         ];
+        c.groups = vec!["c06"];
+        v.push(c);
+    }
+    // v5: a session resumed under a smaller Maximum Packet Size than the one it was built under: of three stored
+    // messages on topics of different length, those that no longer fit are dropped (identifier released),
+    // every other one is retransmitted, in order - wherever in the store the oversize ones sit
+    for role in [RoleK::Client, RoleK::Server] {
+        if !thorough && role == RoleK::Server {
+            continue;
+        }
+        let mut c = EpCfg::new(&cfg_name("c06", role, Some(Ver::V5), "resume under a smaller size limit"), role, Some(Ver::V5));
+        c.auto_pub = true;
+        c.window = 3;
+        c.alph = session_alph(true, 3);
+        c.alph.topics = 3;
+        c.alph.als = vec![Al::No];
+        c.alph.pub_q = vec![1];
+        c.alph.peer_acks = vec![crate::refcodec::AckKind::Puback];
+        c.connects = vec![ConnProf::basic(false), ConnProf { mps: Some(12), ..ConnProf::basic(false) }];
+        c.connacks = vec![AckProf::basic(true), AckProf { mps: Some(12), ..AckProf::basic(true) }];
         c.groups = vec!["c06"];
         v.push(c);
     }
